@@ -97,7 +97,11 @@ func vc02Model(k int, n int, nreg int, ns bool) []vvttCue {
 			cue.en = nondetInt64(0, 100*3600*1000-1)
 		}
 		for q := 0; q < (k+c)%3; q++ {
-			cue.comments = append(cue.comments, "note"+strconv.Itoa(q))
+			if q == 1 {
+				cue.comments = append(cue.comments, "2024") // a continuation line of a note may look like a cue identifier
+			} else {
+				cue.comments = append(cue.comments, "note"+strconv.Itoa(q))
+			}
 		}
 		if (k+c)%2 == 0 {
 			cue.id = 7 + c
